@@ -1,4 +1,8 @@
 """C04 - dense-time offline robustness equals the dense-time STL semantics."""
+from fractions import Fraction
+
+from hypothesis import strategies as st
+
 from .. import formula as F
 from ..common import feature_labels
 from ..dense import (DENSE, ct_cases, case_q, to_time, norm_signals, dense_text, check_shape, compare_ct,
@@ -115,7 +119,43 @@ def attribute(f, sig, q):
     return 'nested'
 
 
+def _units_lane(tier):
+    from . import C08
+    return C08.dense_cases(tier)
+
+
+def check_units(case):
+    """bounds written with explicit units / the case restated in another default unit (machinery of C08)"""
+    from . import C08
+    return C08.check_dense(case)
+
+
+@st.composite
+def staircase_cases(draw, tier):
+    """Long monotone runs (staircases) under wide windows: the sliding-window deletion loops need several pops in a row."""
+    prof = _profile(tier, max_bound=16, nvars=1, max_depth=3)
+    f, vs = draw(F.formulas(prof))
+    q = draw(st.sampled_from([Fraction(1, 4)]))
+    sig = {}
+    for v in vs:
+        n = draw(st.integers(5, 12))
+        vals = sorted(draw(st.lists(st.integers(-16, 16), min_size=n, max_size=n, unique=True)), reverse=draw(st.booleans()))
+        # a few local perturbations: mostly monotone with one or two breaks
+        for _ in range(draw(st.integers(0, 2))):
+            i = draw(st.integers(0, n - 1))
+            vals[i] = draw(st.integers(-16, 16))
+        k = 0
+        s = []
+        for x in vals:
+            s.append([k, x / 2.0])
+            k += draw(st.sampled_from([1, 1, 1, 2]))
+        sig[v] = s
+    return {'formula': f, 'vars': vs, 'signals': sig, 'q': [q.numerator, q.denominator]}
+
+
 LANES = [
+    Lane('staircase', lambda tier: staircase_cases(tier), check, 1500, 20000, ct_candidates),
+    Lane('units', _units_lane, check_units, 800, 10000, None),
     Lane('main', lambda tier: ct_cases(_profile(tier), tier), check, 3000, 50000, ct_candidates),
     # t0 > 0: unbounded operators only.  The suite pins bounded operators on a signal that starts after 0 to a result that
     # starts at 0 (test_once_bounded_3), the property text says "starts at the beginning of the common input domain":
